@@ -56,33 +56,9 @@ func scratch() string {
 }
 
 // buildProtoc compiles the stand-in into <scratch>/bin/protoc and puts that directory first on PATH.
+// VERIF_C10_REALPB=1 selects the cross-validation mode (messages from the real protoc-gen-go).
 func buildProtoc(sc string) error {
-	bin := filepath.Join(sc, "bin")
-	if err := os.MkdirAll(bin, 0o755); err != nil {
-		return err
-	}
-	cmd := exec.Command("go", "build", "-o", filepath.Join(bin, "protoc"), "./cmd/protoc")
-	cmd.Dir = filepath.Join(vc.Root(), "lab")
-	cmd.Env = append(os.Environ(), "GOFLAGS=-mod=mod", "GOPROXY=off", "GOSUMDB=off", "GOTOOLCHAIN=local")
-	if out, err := cmd.CombinedOutput(); err != nil {
-		return fmt.Errorf("stand-in protoc does not build: %v\n%s", err, out)
-	}
-	if os.Getenv("VERIF_C10_REALPB") != "" {
-		// cross-validation mode: *.pb.go files come from the REAL protoc-gen-go, built from the module cache
-		// (google.golang.org/protobuf/cmd/protoc-gen-go); *_grpc.pb.go files stay stand-ins (protoc-gen-go-grpc is
-		// a separate module that is not in the cache)
-		plugin := filepath.Join(bin, "protoc-gen-go")
-		cmd := exec.Command("go", "build", "-o", plugin, "google.golang.org/protobuf/cmd/protoc-gen-go")
-		cmd.Dir = filepath.Join(vc.Root(), "lab")
-		cmd.Env = append(os.Environ(), "GOFLAGS=-mod=mod", "GOPROXY=off", "GOSUMDB=off", "GOTOOLCHAIN=local")
-		if out, err := cmd.CombinedOutput(); err != nil {
-			return fmt.Errorf("real protoc-gen-go does not build from the module cache: %v\n%s", err, out)
-		}
-		if err := os.Setenv("VERIF_PROTOC_GEN_GO", plugin); err != nil {
-			return err
-		}
-	}
-	return os.Setenv("PATH", bin+string(os.PathListSeparator)+os.Getenv("PATH"))
+	return protostub.Install(filepath.Join(vc.Root(), "lab"), filepath.Join(sc, "bin"), os.Getenv("VERIF_C10_REALPB") != "")
 }
 
 func syntaxError(msg string) bool {
@@ -239,7 +215,14 @@ func judge(run *vc.Run, d *pipeline.Design, verbose bool) {
 			run.Violation("proto-malformed:"+normParseMsg(msg)+shape, fmt.Sprintf("accepted design, generated %s is not well-formed proto3: %s", filepath.Base(rel), err), w)
 			continue
 		}
-		say("%s parses as proto3: %d messages, %d services", rel, len(f.AllMessages()), len(f.Services))
+		if err := protostub.CrossCheck(f); err != nil {
+			// second judge: protobuf-go's own descriptor validation
+			malformed = true
+			say("%s: %v", rel, err)
+			run.Violation("proto-malformed:descriptor:"+normParseMsg(err.Error()), fmt.Sprintf("accepted design, generated %s is refused by protobuf-go's descriptor validation: %v", filepath.Base(rel), err), w)
+			continue
+		}
+		say("%s parses as proto3 (and protobuf-go accepts its descriptor): %d messages, %d services", rel, len(f.AllMessages()), len(f.Services))
 		parsed[rel] = f
 	}
 	if d.Status == "generror" {
